@@ -375,6 +375,9 @@ func r16Window(c *core.Ctx, p *load.Program, tk string, fn *ssa.Function, win []
 			if s.Counts["win"] > 0 && s.Counts["store"] == 0 {
 				problems = append(problems, fmt.Sprintf("a path returning a page with nil error at %s never stores the cursor", p.Pos(r.Pos())))
 			}
+			if s.Counts["win"] == 0 && s.Counts["npos"] == 0 && len(r.Results) > 0 && !ssax.IsNilConst(s.Resolve(r.Results[0])) {
+				problems = append(problems, fmt.Sprintf("a path returns entries at %s without cutting them at the cursor (n <= 0 answered with the whole listing): after an earlier page the same entries are handed out again, and the cursor does not advance — os.File returns the remainder", p.Pos(r.Pos())))
+			}
 			if s.Counts["npos"] > 0 && s.Counts["win"] == 0 {
 				problems = append(problems, fmt.Sprintf("a path with n > 0 returns a page at %s that was never windowed by the cursor (the whole listing again)", p.Pos(r.Pos())))
 			}
